@@ -148,7 +148,74 @@ let gen_mode cfgs =
     done
   with End_of_file -> ()
 
+(* ---- type names: one type description per line -> the tokens of its recorded name, without blanks *)
+let prims = [| "u8"; "u16"; "u32"; "u64"; "u128"; "usize"; "i8"; "i16"; "i32"; "i64"; "i128"; "isize"; "f32"; "f64"; "bool"; "char" |]
+let user_name = function
+  | 1 -> "vharness" | 2 -> "vt" | 3 -> "inner" | 10 -> "Nc" | 11 -> "Pz" | 12 -> "Wrap" | 13 -> "Deep" | 14 -> "Pair"
+  | n -> "user" ^ string_of_int n
+let ident_s = function
+  | Ialloc -> "alloc" | Iboxed -> "boxed" | IBox -> "Box" | Istring -> "string" | IString -> "String"
+  | Ivec -> "vec" | IVec -> "Vec" | Icore -> "core" | Ioption -> "option" | IOption -> "Option"
+  | Iresult -> "result" | IResult -> "Result" | Istr -> "str"
+  | IPrim p -> prims.(int_of_nat p) | IUser n -> user_name (int_of_nat n)
+let token_s = function
+  | KId i -> ident_s i | KLt -> "<" | KGt -> ">" | KComma -> "," | KColon2 -> "::" | KLParen -> "(" | KRParen -> ")"
+  | KLBrack -> "[" | KRBrack -> "]" | KSemi -> ";" | KNum n -> string_of_int (int_of_nat n)
+
+let parse_ty (s : string) : rty =
+  let pos = ref 0 in
+  let peek () = if !pos < String.length s then s.[!pos] else '\000' in
+  let eat c = if peek () = c then incr pos else failwith (Printf.sprintf "expected %c at %d in %s" c !pos s) in
+  let number () =
+    let st = !pos in
+    while (match peek () with '0'..'9' -> true | _ -> false) do incr pos done;
+    int_of_string (String.sub s st (!pos - st)) in
+  let rec ty () =
+    let c = peek () in incr pos;
+    match c with
+    | 'P' -> TPrim (nat_of_int (number ()))
+    | 'X' -> TStr
+    | 'S' -> TString
+    | 'B' -> eat '('; let a = ty () in eat ')'; TBox a
+    | 'V' -> eat '('; let a = ty () in eat ')'; TVec a
+    | 'O' -> eat '('; let a = ty () in eat ')'; TOption a
+    | 'L' -> eat '('; let a = ty () in eat ')'; TSlice a
+    | 'R' -> eat '('; let a = ty () in eat ','; let e = ty () in eat ')'; TResult (a, e)
+    | 'A' -> eat '('; let a = ty () in eat ','; let n = number () in eat ')'; TArray (a, nat_of_int n)
+    | 'T' -> eat '('; let l = tys ')' in eat ')'; TTuple l
+    | 'U' -> eat '(';
+        let path = ref [number ()] in
+        while peek () = '.' do incr pos; path := number () :: !path done;
+        eat ';'; let name = number () in eat ';';
+        let l = tys ')' in eat ')';
+        TUser (List.rev_map nat_of_int !path, nat_of_int name, l)
+    | _ -> failwith ("type description: " ^ s)
+  and tys close =
+    if peek () = close then [] else begin
+      let first = ty () in
+      let rest = ref [first] in
+      while peek () = ',' do incr pos; rest := ty () :: !rest done;
+      List.rev !rest
+    end in
+  let t = ty () in
+  if !pos <> String.length s then failwith ("trailing input in " ^ s);
+  t
+
+let tyname_mode () =
+  try
+    while true do
+      let line = input_line stdin in
+      if String.length line > 0 then begin
+        let t = parse_ty line in
+        let name = String.concat "" (List.map token_s (recorded_name t)) in
+        let short = String.concat "" (List.map token_s (key_of (short_ast t))) in
+        print_endline (name ^ "|" ^ short)
+      end
+    done
+  with End_of_file -> ()
+
 let () =
   if Array.length Sys.argv > 1 && Sys.argv.(1) = "vec" then vec_mode ()
   else if Array.length Sys.argv > 2 && Sys.argv.(1) = "gen" then gen_mode (String.split_on_char ',' Sys.argv.(2))
+  else if Array.length Sys.argv > 1 && Sys.argv.(1) = "tyname" then tyname_mode ()
   else builder_mode ()
